@@ -77,6 +77,9 @@ def main():
             cextra = extra + list(case.get("args", []))
             res = common.run_runner(part.get("binary", spec.binary), text, workdir, ["--base-seed", base_seed, "--nsched", ns] + cextra)
             stats.add(text, res, classes=case.get("classes", ()))
+            if res.get("inconclusive") and os.environ.get("VERIF_LONG_DEBUG"):
+                with open(os.environ["VERIF_LONG_DEBUG"], "a") as lf_:
+                    lf_.write("INCONCLUSIVE %s base_seed=%s ns=%s extra=%s n=%s\n%s\n" % (a.prop, base_seed, ns, cextra, res.get("inconclusive"), text))
             v = res.get("violation")
             cands = res.get("long_candidates") or []
             if (cands and not v and state["last_fail"] is None and state["long_spent"] < long_allow and "args" not in case
@@ -87,7 +90,7 @@ def main():
                 state["long_spent"] += time.time() - t_run
                 if os.environ.get("VERIF_LONG_DEBUG"):
                     with open(os.environ["VERIF_LONG_DEBUG"], "a") as lf_:
-                        lf_.write("%s w%d %.1fs at %.1fs points=%s labels=%s\n%s\n" % (a.prop, a.worker, time.time() - t_run, t_run - t0, res2.get("points"), {k: v for k, v in res2.get("labels", {}).items() if "stall" in k}, text))
+                        lf_.write("%s w%d %.1fs at %.1fs points=%s inconcl=%s labels=%s\n%s\n" % (a.prop, a.worker, time.time() - t_run, t_run - t0, res2.get("points"), res2.get("inconclusive"), {k: v for k, v in res2.get("labels", {}).items() if "stall" in k}, text))
                 stats.add_long(res2)
                 if res2.get("violation"):
                     v = res2["violation"]
